@@ -24,13 +24,13 @@ CHECKS.update({
  "C02": dict(
   level="exploration",
   technique="bounded-exhaustive enumeration of documents x predicate-bearing paths on the real evaluator against a reference evaluator",
-  text="All forests with <=4/5 nodes x 2 decorations x thousands of predicate-bearing expressions (every axis x tests x 41 predicates - incl. position()/last() inside function-call arguments -, ordered predicate pairs, nested predicates, filter expressions with predicates and continued paths, node-set variables and a user function as path heads); surviving nodes compared by identity with the reference.",
+  text="All forests with <=4/5 nodes x 2 decorations x thousands of predicate-bearing expressions (every axis x tests x 41 predicates - incl. position()/last() inside function-call arguments -, attribute and namespace nodes as context nodes of predicated steps, ordered predicate pairs, nested predicates, filter expressions with predicates and continued paths, node-set variables and a user function as path heads); surviving nodes compared by identity with the reference.",
   note="Trusted: reference evaluator refxp. Only which nodes survive is compared here (order is C03).",
   ref="2 C02"),
  "C03": dict(
   level="exploration",
   technique="bounded-exhaustive enumeration of documents x node-set expressions; order/duplicate oracle on the implementation's own result plus reference comparison",
-  text="All forests with <=3/4 nodes x 4 decorations: every 1-2 (thorough 1-3) step path over 13 axes x {node(),*}, attribute/namespace steps after reverse axes and 10 step forms x 7 predicates after multi-node context sets, from every context node; a 20-30 path universe with all pairwise unions, count() of unions and association shapes from the root. Each returned slice is checked for duplicates, foreign cursors, strict monotonicity, ascending order where required, and set equality with the reference (union = sorted set union).",
+  text="All forests with <=3/4 nodes x 4 decorations: every 1-2 (thorough 1-3) step path over 13 axes x {node(),*}, attribute/namespace steps after reverse axes and 10 step forms x 7 predicates after multi-node context sets, from every context node; every ordered forest of 4-6 (thorough 7) elements x all one- and two-step paths from every context node; a 20-30 path universe with all pairwise unions, count() of unions and association shapes from the root. Each returned slice is checked for duplicates, foreign cursors, strict monotonicity, ascending order where required, and set equality with the reference (union = sorted set union).",
   note="Document order is read from the implementation's own list order (its agreement with Pos() is C10). Trusted: refxp.",
   ref="2 C03"),
  "C04": dict(
@@ -66,7 +66,7 @@ CHECKS.update({
  "C11": dict(
   level="exploration",
   technique="bounded-exhaustive enumeration of binding environments x documents x expressions against the reference evaluated under the same bindings; call logs of recording user functions compared",
-  text="27 binding environments (two prefixes each unbound/urn:u/urn:v incl. aliases x three function libraries incl. user count()/true() shadowing builtins; variables of all four types in three namespaces) x all forests <=3/4 nodes with namespaced elements/attributes x ~100 expressions using prefixed names, variables and calls (incl. prefixed calls spelling core functions; a bare node-set variable reference must return exactly the bound sequence); results and the (arguments, context, position, size) observed by user functions compared with the reference.",
+  text="27 binding environments (every other one handed over by assigning caller-built maps to the ContextSettings fields, as the CLI does; two prefixes each unbound/urn:u/urn:v incl. aliases x three function libraries incl. user count()/true() shadowing builtins; variables of all four types in three namespaces) x all forests <=3/4 nodes with namespaced elements/attributes x ~100 expressions using prefixed names, variables and calls (incl. prefixed calls spelling core functions; a bare node-set variable reference must return exactly the bound sequence); results and the (arguments, context, position, size) observed by user functions compared with the reference.",
   note="Assumes the library's documented 0-based ContextPosition(). Unbound names only in positions every evaluator must evaluate.",
   ref="2 C11"),
  "C12": dict(
@@ -102,13 +102,13 @@ CHECKS.update({
  "C19": dict(
   level="exploration",
   technique="bounded-exhaustive enumeration of reflect-generated target types x tag expressions x nodes against values derived from separate Exec calls",
-  text="50 field/element types (all supported kinds, pointer chains, nestings, the unsupported kinds, and defined types of supported kinds - error or converted value, never a panic) x 37 tag expressions (both tiers; incl. magnitudes around 2^31, 2^32, 2^63, 2^64 - exact limits of the 64-bit kinds) x every element of 3 documents as *T and **T; slice targets over node-sets of 0-3 nodes in both orders; 36 ill-shaped targets and results; expected values from separate Exec calls plus the statement's conversion table; never a panic; untagged fields untouched.",
+  text="50 field/element types (all supported kinds, pointer chains, nestings, the unsupported kinds, and defined types of supported kinds - error or converted value, never a panic) x 40 tag expressions (incl. reverse-axis results into slice fields) (both tiers; incl. magnitudes around 2^31, 2^32, 2^63, 2^64 - exact limits of the 64-bit kinds) x every element of 3 documents as *T and **T; slice targets over node-sets of 0-3 nodes in both orders and with a repeated node (expectation computed before the call from a copy; the caller's node-set must come back as given); 36 ill-shaped targets and results; expected values from separate Exec calls plus the statement's conversion table; never a panic; untagged fields untouched.",
   note="Exec is trusted here (verified by C01-C07). Unrepresentable float->int conversions only required not to panic.",
   ref="2 C19"),
  "C13": dict(
   level="model_checking",
   technique="explicit-state BFS over call histories (Exec/Unmarshal/BuildExpr on shared objects) with state de-duplication; every transition replayed on fresh real objects; deep reflective fingerprints as invariant",
-  text="States are the contents/length/capacity of two caller-held node-set slots on two documents; 150+ operations per state (41 menu expressions from 3 context nodes, results optionally kept - also re-sliced with spare capacity -, Unmarshal, BuildExpr); depth 2 (quick) / 3 (thorough). After every call: fingerprints (unexported fields, spare capacity, cyclic pointers) of the tree, both slots' full-capacity views, all compiled expressions and the caller's namespace, variable and function maps unchanged; the result equals the same call's result in every other history; reused compiled expression = freshly built one. Process histories: every ordered pair of 80 calls (32 near-duplicate expression texts; 8 texts x 3 context nodes x 2 documents) in a FRESH process - the second call's outcome must equal its outcome in a process where nothing ran before. Parser order: every ambiguous alternative list of every built C08 query rotated.",
+  text="States are the contents/length/capacity of two caller-held node-set slots on two documents; 150+ operations per state (44 menu expressions from 3 context nodes, results optionally kept - also re-sliced with spare capacity -, Unmarshal, BuildExpr); depth 2 (quick) / 3 (thorough). After every call: fingerprints (unexported fields, spare capacity, cyclic pointers) of the tree, both slots' full-capacity views, all compiled expressions and the caller's namespace, variable and function maps unchanged; the result equals the same call's result in every other history; reused compiled expression = freshly built one. Process histories: every ordered pair of 80 calls (32 near-duplicate expression texts; 8 texts x 3 context nodes x 2 documents) in a FRESH process - the second call's outcome must equal its outcome in a process where nothing ran before. Parser order: every ambiguous alternative list of every built C08 query rotated.",
   note="BuildExpr repeatability over the parser's internal (map-iteration) ordering is enumerated at deviation bound 1: every ambiguous alternative list of every built C08 query is rotated so that each alternative comes first once (reflection on the parse forest, no hook); simultaneous deviations in two lists are not enumerated.",
   ref="2 C13"),
  "C14": dict(
